@@ -1540,6 +1540,8 @@ def _run_hom_table(ctx, rid, it, table, home_rel, complex_scale=False,
         def arg(x, k):
             if x == "@same":
                 return mk(nm=f"arg{k}")
+            if x == "@shape":
+                return tuple(O)
             if x == "@outer":
                 return AArr(O, HM.INV)
             if isinstance(x, dict) and "arr" in x:
